@@ -480,7 +480,7 @@ func genScenario(t *rapid.T) (scenario, slog.Attrs, []any) {
 	sc.DateFlag = rapid.IntRange(0, 3).Draw(t, "dateflag") == 0
 	sc.Recolour = rapid.SampledFrom([]int{0, 0, 0, 1, 2, 3, 4}).Draw(t, "recolour")
 	sc.How = rapid.SampledFrom([]int{0, 0, 1, 2, 3}).Draw(t, "howColoredIsSet")
-	sc.FlagsHow = rapid.SampledFrom([]int{0, 0, 1, 2, 3}).Draw(t, "flagsHow")
+	sc.FlagsHow = rapid.SampledFrom([]int{0, 0, 1, 2, 3, 4}).Draw(t, "flagsHow")
 	sc.Disturb = rapid.SampledFrom([]int{0, 0, 0, 1, 2, 3, 4, 5, 6}).Draw(t, "disturbance")
 	sc.PreLog = rapid.IntRange(0, 3).Draw(t, "preLogWhileUnregistered") == 0
 	sc.TS = vlib.GenTime().Draw(t, "ts")
